@@ -354,3 +354,85 @@ impl Expression {
     requires 1 <= bits, bits as nat <= MAX_BITS(),
     ensures r matches Expression::Constant(c) && c.wf() && c.bits == bits && c.value@ == (value as nat) % pow2(bits as nat),
 //@ end
+
+// ---- structural queries used by the analyses -----------------------------------------------------
+pub open spec fn expr_all_constants(e: Expression) -> bool
+    decreases e,
+{
+    match e {
+        Expression::Scalar(s) => false,
+        Expression::Constant(c) => true,
+        Expression::Add(l, r) | Expression::Sub(l, r) | Expression::Mul(l, r) | Expression::Divu(l, r)
+        | Expression::Modu(l, r) | Expression::Divs(l, r) | Expression::Mods(l, r) | Expression::And(l, r)
+        | Expression::Or(l, r) | Expression::Xor(l, r) | Expression::Shl(l, r) | Expression::Shr(l, r)
+        | Expression::AShr(l, r) | Expression::Cmpeq(l, r) | Expression::Cmpneq(l, r) | Expression::Cmplts(l, r)
+        | Expression::Cmpltu(l, r) => expr_all_constants(*l) && expr_all_constants(*r),
+        Expression::Zext(b, x) | Expression::Sext(b, x) | Expression::Trun(b, x) => expr_all_constants(*x),
+        Expression::Ite(c, t, f) => expr_all_constants(*c) && expr_all_constants(*t) && expr_all_constants(*f),
+    }
+}
+
+/// the scalars of an expression, left to right, with repetition
+pub open spec fn expr_scalars(e: Expression) -> Seq<Scalar>
+    decreases e,
+{
+    match e {
+        Expression::Scalar(s) => seq![s],
+        Expression::Constant(c) => Seq::<Scalar>::empty(),
+        Expression::Add(l, r) | Expression::Sub(l, r) | Expression::Mul(l, r) | Expression::Divu(l, r)
+        | Expression::Modu(l, r) | Expression::Divs(l, r) | Expression::Mods(l, r) | Expression::And(l, r)
+        | Expression::Or(l, r) | Expression::Xor(l, r) | Expression::Shl(l, r) | Expression::Shr(l, r)
+        | Expression::AShr(l, r) | Expression::Cmpeq(l, r) | Expression::Cmpneq(l, r) | Expression::Cmplts(l, r)
+        | Expression::Cmpltu(l, r) => expr_scalars(*l) + expr_scalars(*r),
+        Expression::Zext(b, x) | Expression::Sext(b, x) | Expression::Trun(b, x) => expr_scalars(*x),
+        Expression::Ite(c, t, f) => expr_scalars(*c) + expr_scalars(*t) + expr_scalars(*f),
+    }
+}
+
+/// an expression without scalars evaluates the same under every environment
+pub proof fn lemma_all_constants_env(e: Expression, env1: Env, env2: Env)
+    requires expr_all_constants(e),
+    ensures eval_spec(e, env1) == eval_spec(e, env2),
+    decreases e,
+{
+    match e {
+        Expression::Scalar(s) => {}
+        Expression::Constant(c) => {}
+        Expression::Add(l, r) | Expression::Sub(l, r) | Expression::Mul(l, r) | Expression::Divu(l, r)
+        | Expression::Modu(l, r) | Expression::Divs(l, r) | Expression::Mods(l, r) | Expression::And(l, r)
+        | Expression::Or(l, r) | Expression::Xor(l, r) | Expression::Shl(l, r) | Expression::Shr(l, r)
+        | Expression::AShr(l, r) | Expression::Cmpeq(l, r) | Expression::Cmpneq(l, r) | Expression::Cmplts(l, r)
+        | Expression::Cmpltu(l, r) => { lemma_all_constants_env(*l, env1, env2); lemma_all_constants_env(*r, env1, env2); }
+        Expression::Zext(b, x) | Expression::Sext(b, x) | Expression::Trun(b, x) => { lemma_all_constants_env(*x, env1, env2); }
+        Expression::Ite(c, t, f) => { lemma_all_constants_env(*c, env1, env2); lemma_all_constants_env(*t, env1, env2); lemma_all_constants_env(*f, env1, env2); }
+    }
+}
+
+impl Expression {
+
+//@ source lib/il/expression.rs
+//@ fn impl Expression :: fn all_constants
+//@ spec
+    ensures /*@spec*/ r == expr_all_constants(*self),
+    decreases *self,
+//@ end
+
+//@ fn impl Expression :: fn get_scalar
+//@ spec
+    ensures /*@spec*/ r == (match *self { Expression::Scalar(s) => Some(&s), _ => None::<&Scalar> }),
+//@ end
+
+//@ fn impl Expression :: fn get_constant
+//@ spec
+    ensures /*@spec*/ r == (match *self { Expression::Constant(c) => Some(&c), _ => None::<&Constant> }),
+//@ end
+
+//@ fn impl Expression :: fn scalars
+//@ spec
+    ensures
+        /*@len*/ r@.len() == expr_scalars(*self).len(),
+        /*@elems*/ forall|i: int| 0 <= i < r@.len() ==> *(#[trigger] r@[i]) == expr_scalars(*self)[i],
+    decreases *self,
+//@ end
+
+} // impl Expression
